@@ -254,7 +254,7 @@ func (w *world) honestPool(maxRound specqbft.Round, k int) []*specqbft.SignedMes
 			pool := qnet.NewPool()
 			wd, init := qnet.NewWorld(&c, pool)
 			s := &qnet.Search{K: k, AllowDeviation: func(_ *qnet.World, e qnet.Event, _ int) bool {
-				return e.Kind == qnet.Isolate || e.Kind == qnet.Timeout || e.Kind == qnet.Drop
+				return e.Kind == qnet.Isolate || e.Kind == qnet.Timeout || e.Kind == qnet.Drop || e.Kind == qnet.DropAll
 			}}
 			cc := c
 			s.OnEnd = func(end *qnet.World) {
